@@ -20,11 +20,12 @@ class VKeys(V):
     """the keys of a dict enumerated in insertion order: array ka[0..n); pairs: iteration yields (key, value)"""
     kind = 'keys'
 
-    def __init__(self, d, ka, n, pairs):
+    def __init__(self, d, ka, n, pairs, pos=None):
         self.d = d
         self.ka = ka
         self.n = n
         self.pairs = pairs
+        self.pos = pos
 
 
 class VRange(V):
